@@ -33,7 +33,12 @@ def run(ctx):
         "be rejected (an acceptance is re-run with up to 3 other hashers = coin seeds and reported); is_valid = true => must be accepted. "
         "stream 2: a valid proof against every assertion value +-1, spec seed / exemptions / degree / assertion step changed, each option "
         "changed (expected by the verifier or claimed by the proof), trace length / width / aux / metadata changed in the proof context "
-        "=> must be rejected.  correspondence: honest proofs with ONE component perturbed after proving (OOD trace value, OOD constraint "
+        "=> must be rejected.  stream 3 (Lagrange kernel column; members of harness/src/lagfam.rs with the honest columns and ONE corruption of "
+        "the kernel column, oracle = the definition c(i) = prod_b (r_b if bit b of i else 1 - r_b) and, read off the same definition, the "
+        "boundary constraint and the log2(n) transition constraints r_(v-k) c(x) = (1 - r_(v-k)) c(g^(2^(v-k)) x) on the subgroup of size "
+        "2^(k-1)): odd rows only, even rows only, a single row 0 / 1 / 2 / n/2 / n-1, the whole column scaled (only the boundary value is "
+        "wrong), and for n = 8, 16, 64 and every k the block [2^(v-k) odd, +2^(v-k)) scaled so that constraint k is the ONLY violated one "
+        "=> must be rejected; the honest column must be accepted.  correspondence: honest proofs with ONE component perturbed after proving (OOD trace value, OOD constraint "
         "evaluation, queried trace value, queried constraint value, options expected/claimed, field modulus, pow nonce, an assertion "
         "value, exemptions; for members with an auxiliary segment also an auxiliary OOD value and a queried auxiliary value) through "
         "verify() with a recording coin vs the extracted decision function verify_model on the parsed proof "
@@ -118,6 +123,7 @@ def run(ctx):
         nfail = 0
         seen = False
         classes = {}
+        lagcov = {}
         for line in out.split("\n"):
             if line.startswith("{"):
                 try:
@@ -125,7 +131,7 @@ def run(ctx):
                 except ValueError:
                     continue
                 f["profile"] = "release"
-                f["replay"] = f"{hb} falsify {ctx.seed} {budget} {maxlog}   (single case: {hb} one {ctx.seed} {budget} <idx> {maxlog})"
+                f["replay"] = f"{hb} falsify {ctx.seed} {budget} {maxlog}   (single case: {hb} one {ctx.seed} {budget} <idx> {maxlog}; stream 3: {hb} lag {ctx.seed} {budget} <idx>)"
                 nfail += 1
                 ctx.add_failure(f)
             elif line.startswith("h "):
@@ -136,6 +142,8 @@ def run(ctx):
                     ctx.samples.insert(0, {"falsifier": sm})
             elif line.startswith("classes "):
                 classes = _json_after(line, "classes") or {}
+            elif line.startswith("lagcov "):
+                lagcov = _json_after(line, "lagcov") or {}
             elif line.startswith("verdicts "):
                 ctx.notes["falsifier_verdicts"] = _json_after(line, "verdicts")
             elif line.startswith("combos "):
@@ -155,6 +163,19 @@ def run(ctx):
         must_accept = sum(v["valid_accepted"] for v in cell_classes.values())
         ctx.ob("falsifier-coverage:both-directions", must_reject >= 200 and must_accept >= 40,
                f"invalid&rejected={must_reject} valid&accepted={must_accept}")
+        # stream 3: the Lagrange kernel column
+        lag = {k: v for k, v in classes.items() if k.startswith("lagrange:")}
+        lag_named = ["honest", "odd-rows-only", "even-rows-only", "single-row-0", "single-row-1", "single-row-2", "single-row-n/2",
+                     "single-row-n-1", "boundary-value"]
+        lag_thin = {c: lag.get("lagrange:" + c, {}).get("cases", 0) for c in lag_named if lag.get("lagrange:" + c, {}).get("cases", 0) < MIN_PER_CLASS}
+        hon = lag.get("lagrange:honest", {})
+        ctx.ob("falsifier-coverage:lagrange-kernel-classes>=20(honest; odd/even rows, single rows 0,1,2,n/2,n-1, boundary value)",
+               seen and not lag_thin, f"thin={lag_thin} honest={hon}")
+        ctx.notes["falsifier_lagrange_only_violated_constraint"] = lagcov
+        need_nk = [f"n{1 << lg}:k{k}" for lg in (3, 4, 6) for k in range(1, lg + 1)]
+        miss_nk = [x for x in need_nk if lagcov.get(x, 0) < 1]
+        ctx.ob("falsifier-coverage:every Lagrange transition constraint k=1..log2(n) is the ONLY violated one in a sampled case (n=8,16,64)",
+               seen and not miss_nk, f"missing={miss_nk} have={lagcov}")
         pub = {k: v["cases"] for k, v in classes.items() if k.startswith("pub:")}
         groups = {}
         for k, v in pub.items():
@@ -169,6 +190,8 @@ def run(ctx):
                        "predicate and the seed layout are tied to /repo's current source by the per-run correspondence")
     ctx.trusted.append("harness/src/airfam.rs: the parametric AIR family and its reference validity predicate is_valid (the falsifier's oracle), "
                        "cross-checked against Trace::validate on every main-segment case")
+    ctx.trusted.append("harness/src/lagfam.rs (Lagrange-kernel family) and the Lagrange oracle lag_oracle of harness/src/bin/c02.rs: the kernel "
+                       "definition and the constraints read off it must agree on every case (kernel <=> no constraint violated)")
     ctx.notes["proved_for_every_field_and_size"] = (
         "root_factor, roots_bound(+degree form), agree_bound, divides_zpoly_iff; valid_b_spec; invalid_transition_not_divisible, "
         "invalid_assertion_not_divisible (all three assertion kinds via asserted_roots_bnd), valid_iff_divisible, invalid_trace_not_divisible; "
